@@ -601,69 +601,11 @@ theorem lemma_mem_lookup (l : List (Bytes × Bytes)) (u p : Bytes) (hnd : (l.map
       simp only [hne]
       exact ih hnd.2 h'
 
-/-- **The handler runs iff** the header is `Basic ` followed by text whose base64 decoding is
-    `u:p` for a configured pair `(u, p)` (`u` without colon: everything after the *first* colon is
-    the password). Every Authorization string, every user table. -/
-theorem auth_runs_iff (r : Req) (hnd : (r.users.map (·.1)).Nodup) :
-    (serve r).ran = true ↔
-      prefixBasic.isPrefixOf r.auth = true ∧
-      ∃ u p, r.dec = some (u ++ ':' :: p) ∧ ':' ∉ u ∧ (u, p) ∈ r.users := by
-  unfold serve
-  by_cases h1 : r.auth = []
-  · simp [h1, reject, prefixBasic]
-  · simp only [h1, if_false]
-    by_cases h2 : prefixBasic.isPrefixOf r.auth = true
-    · simp only [h2, not_true_eq_false, if_false, true_and]
-      cases hd : r.dec with
-      | none => simp [reject]
-      | some cred =>
-        simp only
-        cases hc : cut ':' cred with
-        | none =>
-          simp only [reject]
-          constructor
-          · intro h; cases h
-          · rintro ⟨u, p, he, hu, _⟩
-            have := (lemma_cut_some ':' cred u p).mpr ⟨by simpa using he, hu⟩
-            rw [hc] at this; cases this
-        | some up =>
-          obtain ⟨u0, p0⟩ := up
-          have h0 := (lemma_cut_some ':' cred u0 p0).mp hc
-          simp only
-          have huniq : ∀ u p, cred = u ++ ':' :: p → ':' ∉ u → u = u0 ∧ p = p0 := by
-            intro u p he hu
-            have := (lemma_cut_some ':' cred u p).mpr ⟨he, hu⟩
-            rw [hc] at this
-            simp only [Option.some.injEq, Prod.mk.injEq] at this
-            exact ⟨this.1.symm, this.2.symm⟩
-          cases hl : r.users.lookup u0 with
-          | none =>
-            simp only [reject]
-            constructor
-            · intro h; cases h
-            · rintro ⟨u, p, he, hu, hm⟩
-              obtain ⟨rfl, rfl⟩ := huniq u p (by simpa using he) hu
-              rw [lemma_mem_lookup _ _ _ hnd hm] at hl; cases hl
-          | some p' =>
-            simp only
-            by_cases hp : p0 = p'
-            · simp only [hp, if_true, true_iff]
-              exact ⟨u0, p', by rw [h0.1, hp], h0.2, lemma_lookup_mem _ _ _ hl⟩
-            · simp only [hp, if_false, reject]
-              constructor
-              · intro h; cases h
-              · rintro ⟨u, p, he, hu, hm⟩
-                obtain ⟨rfl, rfl⟩ := huniq u p (by simpa using he) hu
-                rw [lemma_mem_lookup _ _ _ hnd hm] at hl
-                simp only [Option.some.injEq] at hl
-                exact absurd hl hp
-    · simp [h2, reject]
-
 /-- the two outcomes of the middleware -/
 theorem lemma_auth_cases (r : Req) :
     serve r = reject r ∨
     ∃ u p, prefixBasic.isPrefixOf r.auth = true ∧ r.dec = some (u ++ ':' :: p) ∧ ':' ∉ u ∧
-      r.users.lookup u = some p ∧ serve r = { ran := true, status := 200, www := none, user := u } := by
+      authenticated r u p = true ∧ serve r = { ran := true, status := 200, www := none, user := u } := by
   unfold serve
   by_cases h1 : r.auth = []
   · simp [h1]
@@ -680,15 +622,58 @@ theorem lemma_auth_cases (r : Req) :
           obtain ⟨u0, p0⟩ := up
           have h0 := (lemma_cut_some ':' cred u0 p0).mp hc
           simp only
-          cases hl : r.users.lookup u0 with
-          | none => simp
-          | some p' =>
-            simp only
-            by_cases hp : p0 = p'
-            · right
-              refine ⟨u0, p0, trivial, by rw [h0.1], h0.2, by rw [hp]; exact hl, by simp [hp]⟩
-            · simp [hp]
+          by_cases ha : authenticated r u0 p0 = true
+          · right
+            exact ⟨u0, p0, trivial, by rw [h0.1], h0.2, ha, by simp [ha]⟩
+          · simp [ha]
     · simp [h2]
+
+/-- **The handler runs iff** the header is `Basic ` followed by text whose base64 decoding is `u:p`
+    (`u` without colon: everything after the *first* colon is the password) and the configuration
+    authenticates that pair — the user table, or the configured validator. Every Authorization string. -/
+theorem auth_runs_iff' (r : Req) :
+    (serve r).ran = true ↔
+      prefixBasic.isPrefixOf r.auth = true ∧
+      ∃ u p, r.dec = some (u ++ ':' :: p) ∧ ':' ∉ u ∧ authenticated r u p = true := by
+  constructor
+  · intro h
+    rcases lemma_auth_cases r with h1 | ⟨u, p, hp, hd, hu, ha, _⟩
+    · rw [h1] at h; cases h
+    · exact ⟨hp, u, p, hd, hu, ha⟩
+  · rintro ⟨hp, u, p, hd, hu, ha⟩
+    unfold serve
+    have h1 : r.auth ≠ [] := by
+      intro he; rw [he] at hp; simp [prefixBasic] at hp
+    have hc := (lemma_cut_some ':' (u ++ ':' :: p) u p).mpr ⟨rfl, hu⟩
+    simp [h1, hp, hd, hc, ha]
+
+/-- with a user table (no validator) "authenticates" means: a configured pair -/
+theorem lemma_authenticated_users (r : Req) (hv : r.validator = none) (hnd : (r.users.map (·.1)).Nodup) (u p : Bytes) :
+    authenticated r u p = true ↔ (u, p) ∈ r.users := by
+  unfold authenticated
+  rw [hv]
+  simp only
+  constructor
+  · intro h
+    cases hl : r.users.lookup u with
+    | none => simp [hl] at h
+    | some p' =>
+      simp only [hl, decide_eq_true_eq] at h
+      rw [h]; exact lemma_lookup_mem _ _ _ hl
+  · intro h
+    rw [lemma_mem_lookup _ _ _ hnd h]; simp
+
+/-- … for a configured user table: every Authorization string, every table -/
+theorem auth_runs_iff (r : Req) (hv : r.validator = none) (hnd : (r.users.map (·.1)).Nodup) :
+    (serve r).ran = true ↔
+      prefixBasic.isPrefixOf r.auth = true ∧
+      ∃ u p, r.dec = some (u ++ ':' :: p) ∧ ':' ∉ u ∧ (u, p) ∈ r.users := by
+  rw [auth_runs_iff']
+  constructor
+  · rintro ⟨hp, u, p, hd, hu, ha⟩
+    exact ⟨hp, u, p, hd, hu, (lemma_authenticated_users r hv hnd u p).mp ha⟩
+  · rintro ⟨hp, u, p, hd, hu, hm⟩
+    exact ⟨hp, u, p, hd, hu, (lemma_authenticated_users r hv hnd u p).mpr hm⟩
 
 /-- a refused request is answered 401 with the configured challenge, and the handler does not run -/
 theorem auth_reject_401 (r : Req) (h : (serve r).ran = false) :
@@ -699,17 +684,66 @@ theorem auth_reject_401 (r : Req) (h : (serve r).ran = false) :
 
 /-- an accepted request reaches the handler with the authenticated user name and no challenge -/
 theorem auth_accept_user (r : Req) (h : (serve r).ran = true) :
-    ∃ u p, r.dec = some (u ++ ':' :: p) ∧ ':' ∉ u ∧ r.users.lookup u = some p ∧
+    ∃ u p, r.dec = some (u ++ ':' :: p) ∧ ':' ∉ u ∧ authenticated r u p = true ∧
       (serve r).user = u ∧ (serve r).www = none := by
-  rcases lemma_auth_cases r with h1 | ⟨u, p, _, hd, hu, hl, h1⟩
+  rcases lemma_auth_cases r with h1 | ⟨u, p, _, hd, hu, ha, h1⟩
   · rw [h1] at h; cases h
-  · exact ⟨u, p, hd, hu, hl, by rw [h1], by rw [h1]⟩
+  · exact ⟨u, p, hd, hu, ha, by rw [h1], by rw [h1]⟩
 
 theorem lemma_prefixBasic : prefixBasic = ['B', 'a', 's', 'i', 'c', ' '] := by decide
 
-/-- **The basic-auth gate meets its oracle** for every Authorization string and user table -/
+theorem lemma_takeWhile_colon (u p : Bytes) (hu : ':' ∉ u) : (u ++ ':' :: p).takeWhile (· != ':') = u := by
+  induction u with
+  | nil => simp
+  | cons a u ih =>
+    have ha : a ≠ ':' := fun h => hu (by simp [h])
+    have hu' : ':' ∉ u := fun h => hu (List.mem_cons_of_mem _ h)
+    simp [ha, ih hu']
+
+/-- the oracle's "accepted credential" is the model's "authenticated pair" -/
+theorem lemma_accepts (r : Req) (hnd : (r.users.map (·.1)).Nodup) (u p : Bytes) (hu : ':' ∉ u) :
+    accepts r (u ++ ':' :: p) u = authenticated r u p := by
+  unfold accepts authenticated
+  cases hv : r.validator with
+  | some v => simp [lemma_takeWhile_colon u p hu]
+  | none =>
+    simp only
+    cases hl : r.users.lookup u with
+    | none =>
+      simp only
+      rw [Bool.eq_false_iff]
+      intro h
+      simp only [List.any_eq_true, Bool.and_eq_true, beq_iff_eq] at h
+      obtain ⟨⟨u', p'⟩, hm, hpm, hu'⟩ := h
+      simp only at hu'
+      subst hu'
+      have := lemma_mem_lookup _ _ _ hnd hm
+      rw [hl] at this; cases this
+    | some p' =>
+      simp only
+      by_cases hp : p = p'
+      · subst hp
+        simp only [decide_true]
+        simp only [List.any_eq_true, Bool.and_eq_true, beq_iff_eq]
+        exact ⟨(u, p), lemma_lookup_mem _ _ _ hl, by simp [pairMatches, hu], rfl⟩
+      · simp only [hp, decide_false]
+        rw [Bool.eq_false_iff]
+        intro h
+        simp only [List.any_eq_true, Bool.and_eq_true, beq_iff_eq] at h
+        obtain ⟨⟨u', p''⟩, hm, hpm, hu'⟩ := h
+        simp only at hu'
+        subst hu'
+        have hl2 := lemma_mem_lookup _ _ _ hnd hm
+        rw [hl] at hl2
+        simp only [Option.some.injEq] at hl2
+        simp only [pairMatches, Bool.and_eq_true, Bool.not_eq_true', beq_iff_eq] at hpm
+        have := hpm.2
+        simp at this
+        exact hp (by rw [this, hl2])
+
+/-- **The basic-auth gate meets its oracle** for every Authorization string, user table and validator verdict -/
 theorem auth_meets_spec (r : Req) (hnd : (r.users.map (·.1)).Nodup) : specOK r (serve r) = true := by
-  rcases lemma_auth_cases r with h1 | ⟨u, p, hpre, hd, hu, hl, h1⟩
+  rcases lemma_auth_cases r with h1 | ⟨u, p, hpre, hd, hu, ha, h1⟩
   · have hran : (serve r).ran = false := by rw [h1]; rfl
     have hnv : wellFormedValid r = false := by
       cases hv : wellFormedValid r with
@@ -722,24 +756,58 @@ theorem auth_meets_spec (r : Req) (hnd : (r.users.map (·.1)).Nodup) : specOK r 
         cases hdec : r.dec with
         | none => simp [hdec] at hv2
         | some cred =>
-          simp only [hdec, List.any_eq_true] at hv2
-          obtain ⟨⟨u, p⟩, hm, hpm⟩ := hv2
-          simp only [pairMatches, Bool.and_eq_true, Bool.not_eq_true', beq_iff_eq] at hpm
-          have : (serve r).ran = true := (auth_runs_iff r hnd).mpr
-            ⟨hp, u, p, by rw [hdec, hpm.2], by simpa using hpm.1, hm⟩
+          simp only [hdec] at hv2
+          have hex : ∃ u p, cred = u ++ ':' :: p ∧ ':' ∉ u ∧ authenticated r u p = true := by
+            cases hval : r.validator with
+            | some v =>
+              simp only [hval, Bool.and_eq_true] at hv2
+              -- split at the first colon
+              have hmem : ':' ∈ cred := by simpa using hv2.2
+              cases hc : cut ':' cred with
+              | none =>
+                exfalso
+                have : ∀ (s : Bytes), ':' ∈ s → cut ':' s ≠ none := by
+                  intro s
+                  induction s with
+                  | nil => simp
+                  | cons a s ih =>
+                    intro hm
+                    unfold cut
+                    by_cases ha : a = ':'
+                    · simp [ha]
+                    · simp only [ha, if_false]
+                      have : ':' ∈ s := by
+                        rcases List.mem_cons.mp hm with h | h
+                        · exact absurd h.symm ha
+                        · exact h
+                      cases hcs : cut ':' s with
+                      | none => exact absurd hcs (ih this)
+                      | some q => simp
+                exact this cred hmem hc
+              | some up =>
+                obtain ⟨u, p⟩ := up
+                have h0 := (lemma_cut_some ':' cred u p).mp hc
+                exact ⟨u, p, h0.1, h0.2, by unfold authenticated; rw [hval]; exact hv2.1⟩
+            | none =>
+              simp only [hval, List.any_eq_true] at hv2
+              obtain ⟨⟨u, p⟩, hm, hpm⟩ := hv2
+              simp only [pairMatches, Bool.and_eq_true, Bool.not_eq_true', beq_iff_eq] at hpm
+              exact ⟨u, p, hpm.2, by simpa using hpm.1,
+                (lemma_authenticated_users r hval hnd u p).mpr hm⟩
+          obtain ⟨u, p, hc, hu, ha⟩ := hex
+          have : (serve r).ran = true := (auth_runs_iff' r).mpr ⟨hp, u, p, by rw [hdec, hc], hu, ha⟩
           rw [hran] at this; cases this
     rw [h1]
     simp [specOK, reject, hnv]
   · rw [h1]
-    have hm := lemma_lookup_mem _ _ _ hl
     have hs : schemeBasic r.auth = true := by
       obtain ⟨t, ht⟩ := List.isPrefixOf_iff_prefix.mp hpre
       rw [← ht, lemma_prefixBasic]
       simp only [schemeBasic, List.cons_append, List.take_succ_cons, List.take_zero, List.map_cons, List.map_nil]
       decide
-    simp only [specOK, if_true, hs, Bool.true_and, hd, List.any_eq_true]
-    refine ⟨(u, p), hm, ?_⟩
-    simp [pairMatches, hu]
+    simp only [specOK, if_true, hs, Bool.true_and, hd]
+    rw [lemma_accepts r hnd u p hu]
+    exact ha
 
 /-- **…and with skip paths**: only a request whose path is literally a configured skip path is exempt -/
 theorem auth_gate_meets_spec (skip : Bool) (r : Req) (hnd : (r.users.map (·.1)).Nodup) :
@@ -912,7 +980,8 @@ def Overrides (r : Req) : Prop :=
     otherwise the handler sees the request's own method. Every option list, every request. -/
 theorem override_iff (r : Req) :
     (Overrides r → serve r = { ran := true, seen := app r.norm (requested (config r.opts) r), original := r.method }) ∧
-    (¬ Overrides r → serve r = { ran := true, seen := r.method, original := r.method }) := by
+    (¬ Overrides r → serve r = { ran := true, seen := r.method,
+                                  original := if r.ctxOrig = [] then r.method else r.ctxOrig }) := by
   unfold Overrides serve
   simp only []
   generalize ((config r.opts).onlyOn.map (app r.upper)).contains (app r.upper r.method) = A
@@ -937,15 +1006,22 @@ theorem override_only_allowed (r : Req) (h : (serve r).seen ≠ r.method) :
     exact absurd rfl h
 
 /-- the handler always runs, and `OriginalMethod` reports the request's own method -/
-theorem override_keeps_original (r : Req) : (serve r).ran = true ∧ (serve r).original = r.method := by
+theorem override_keeps_original (r : Req) (hc : r.ctxOrig = []) :
+    (serve r).ran = true ∧ (serve r).original = r.method := by
   by_cases ho : Overrides r
   · rw [(override_iff r).1 ho]; exact ⟨rfl, rfl⟩
-  · rw [(override_iff r).2 ho]; exact ⟨rfl, rfl⟩
+  · rw [(override_iff r).2 ho]; simp [hc]
+
+/-- the handler always runs -/
+theorem override_runs (r : Req) : (serve r).ran = true := by
+  by_cases ho : Overrides r
+  · rw [(override_iff r).1 ho]
+  · rw [(override_iff r).2 ho]
 
 /-- **The method-override gate meets its oracle** -/
 theorem method_meets_spec (r : Req) : specOK (config r.opts) r (serve r) = true := by
   unfold specOK
-  have h1 := (override_keeps_original r).1
+  have h1 := override_runs r
   by_cases h : (serve r).seen = r.method
   · simp [h1, h]
   · obtain ⟨ha, hb, hc, _⟩ := override_only_allowed r h
